@@ -10,7 +10,7 @@ from ..core import Failure
 
 ID = "C12"
 OWNS_CONSTRUCTION = True
-BUDGET = {"quick": 500, "thorough": 2500}
+BUDGET = {"quick": 500, "thorough": 10000}
 TECHNIQUE = ("complete enumeration of the numeric dtypes and their ordered pairs x constructors / casts / arithmetic / "
              "shape functions, with the poison allocator armed (every fresh polynomial buffer pre-filled with 0xA5), vs "
              "numpy's own casts and promotion; Hypothesis-generated values and broadcasting shapes on top")
